@@ -94,7 +94,7 @@ def handle (op : String) (args : List String) (impl : String) : Option Verdict :
     let ok := match impl.splitOn "|" with
       | [em, fin] =>
         match depsOfIdx ds em, implMap ds fin with
-        | some o, some m' => decide (P17 m (faultFree s) (isMatch res dest) ds o m')
+        | some o, some m' => decide (P17 m s.faults (isMatch res dest) ds o m')
         | _, _ => false
       | _ => false
     return ⟨model, ok, s!"filter:n={min ds.length 4}:emitted={min out.length 3}:faultfree={faultFree s}:withheld={decide (out.length < (eligible m (isMatch res dest) ds).length)}"⟩
@@ -124,7 +124,7 @@ def handle (op : String) (args : List String) (impl : String) : Option Verdict :
           merged.length == all.length &&
           gs.all (fun g => (g.map (·.idx)).Pairwise (· < ·)) &&
           ((gs.map fun g => (g.head?.map (·.dest)).getD 0).Pairwise (· ≠ ·)) &&
-          decide (P17 m (faultFree s) (fun _ => true) ds merged m')
+          decide (P17 m s.faults (fun _ => true) ds merged m')
         | _, _ => false
       | _ => false
     return ⟨model, ok, s!"retryv1:n={min ds.length 4}:groups={min (byDest out).length 3}:faultfree={faultFree s}"⟩
@@ -150,7 +150,7 @@ def handle (op : String) (args : List String) (impl : String) : Option Verdict :
       | [ret, em, fin] =>
         ret == "nil" &&
         match depsOfIdx ds em, implMap ds fin with
-        | some o, some m' => decide (P17 m (faultFree s) (isMatch res dest) ds o m')
+        | some o, some m' => decide (P17 m s.faults (isMatch res dest) ds o m')
         | _, _ => false
       | _ => false
     return ⟨model, ok, s!"handler:{kind}:emitted={min out.length 2}:faultfree={faultFree s}"⟩
